@@ -209,6 +209,27 @@ def run(F, rep, tier):
             rep.ok('R2.5', fn, 'arguments by value, forwarded to the builtin as is')
         else:
             rep.viol('R2.5', fn + '|by-value', '%s clones or borrows its arguments on the builtin fast path (by value %s, clones %d)' % (fn, byval, len(clones)), b.loc(0))
+    # ---------------- R2.7
+    rep.rule('R2.7', 'the walkers descend into the stored element, not into a copy of it: set_index / modify_existing_index / '
+             'modify_every_existing_index never clone an Obj fetched from the container they are modifying (HashMap get / get_mut, indexing, '
+             'iteration) - the copy is a second holder, so the nested make_mut duplicates the whole row on every pop / remove / update; cloning '
+             'the index key, the new value or the dict default (to store it under a fresh key) is fine')
+    n27 = 0
+    for w in ('eval::set_index', 'eval::modify_existing_index', 'eval::modify_every_existing_index'):
+        if not F.has_fn(w):
+            continue
+        wb = F.body(w)
+        for c in wb.calls:
+            if not re.search(r'<core::(Obj|Seq) as std::clone::Clone>::clone$', c.target):
+                continue
+            n27 += 1
+            og = origins(wb, c.args[0], passthru=('deref', 'as_ref', 'borrow', 'unwrap', 'branch'))
+            fetched = [o for o in og if o[0] == 'call' and o[1].rsplit('::', 1)[-1] in ('get', 'get_mut', 'index', 'index_mut', 'next', 'last', 'first', 'pythonic_mut', 'last_mut', 'first_mut', 'remove', 'entry')]
+            if fetched:
+                rep.viol('R2.7', '%s|clone-of-element' % w, '%s clones an element it fetched from the container (%s) and works on the copy: the element then has two holders and every nested update copies it in full' % (w, fetched[0][1].rsplit('::', 2)[-2] + '::' + fetched[0][1].rsplit('::', 1)[-1]), c.loc())
+            else:
+                rep.ok('R2.7', '%s clone of %s' % (w.rsplit('::', 1)[-1], sorted({str(o[1]) for o in og})), 'not an element of the container being modified')
+    rep.floor('R2.7', 'Obj clones in the walkers', n27, 4)
     # ---------------- R2.6
     rep.rule('R2.6', 'no second handle while writing in place: the closures that write a variable through set_index (in assign, assign_every, '
              'assign_respecting_type, drop_lhs) never clone an Obj / Seq read from the cell they are about to write - a snapshot that is '
